@@ -73,6 +73,35 @@ def cases_for(defn, seed):
                             yield (ki, ni), p, n
 
 
+def late_unclaimed(db, seed, idxs):
+    """after the 10-minute discovery window a decoder returns messages of sources that never claimed:
+    with network mapping on they too must carry the hash (same value as for a claimed source)"""
+    vios, n = [], 0
+    common.set_clock_offset(0)
+    dec = NMEA2000Decoder(build_network_map=True)
+    ref = mapped_decoder()
+    common.set_clock_offset(11)
+    try:
+        for di in idxs:
+            defn = db.defs[di]
+            for b in ("mid", "max"):
+                p, nb = payloads.build(defn, payloads.base_assignment(defn, b))
+                m = dec_line(dec, defn.pgn, p, nb, src=99)
+                r = dec_line(ref, defn.pgn, p, nb, src=1)
+                if m is None or r is None:
+                    continue
+                n += 1
+                if m.hash != r.hash or not isinstance(m.hash, str) or not HEX32.match(m.hash):
+                    vios.append({"kind": "hash_missing_or_malformed", "facts": {"definition": defn.id, "mechanism": "unclaimed_source_after_discovery_window"},
+                                 "signature": f"late:{defn.pgn}",
+                                 "detail": f"[PGN {defn.pgn} {defn.id}] source that never claimed, 11 minutes after start, network mapping on: hash {m.hash!r}, "
+                                           f"the same payload from a claimed source hashes to {r.hash!r}",
+                                 "case": {"pgn": defn.pgn, "definition": defn.id, "payload_hex": p.to_bytes(nb, "little").hex(), "late": True}})
+    finally:
+        common.set_clock_offset(0)
+    return n, vios[:10]
+
+
 def _task(args):
     idxs, seed = args
     db = refdb.db()
@@ -134,6 +163,9 @@ def _task(args):
                 first = False
             if sample is None and combo and any(ddef.fields[i].pk for i in combo if i < len(ddef.fields)):
                 sample = {"pgn": defn.pgn, "definition": m.id, "payload_hex": p.to_bytes(n, "little").hex(), "key": list(k[1]), "hash": m.hash}
+    n_late, v_late = late_unclaimed(db, seed, idxs[:6])
+    st["variants"] += n_late
+    vios += v_late
     return st, vios, sample, h2k, xproc
 
 
